@@ -29,13 +29,15 @@ def main(argv):
 	ids = [a for a in argv if re.match(r'^C\d\d-\d+$', a)]
 	if not ids:
 		ids = sorted(d for d in os.listdir(SEEDED) if re.match(r'^C\d\d-\d+$', d))
+	slot = argv[argv.index('--slot') + 1] if '--slot' in argv else ''
 	if inplace:
 		verif, repo = '/verif', '/repo'
 	else:
-		verif, repo = '/tmp/v2', '/tmp/r2'
-		sh('mkdir -p /tmp/v2 && rsync -a --delete --exclude .git --exclude evidence/replay /verif/ /tmp/v2/')
-		sh('rm -rf /tmp/r2 && git clone -q /repo /tmp/r2')
-	res_path = os.path.join(SEEDED, 'RESULTS.json')
+		verif, repo = '/tmp/v2' + slot, '/tmp/r2' + slot
+		sh('mkdir -p %s && rsync -a --delete --exclude .git --exclude evidence/replay /verif/ %s/' % (verif, verif))
+		sh('rm -rf %s && git clone -q /repo %s' % (repo, repo))
+	# several slots may run side by side (each with its own copies); every slot writes its own result file, tools/seedmerge.py merges them
+	res_path = os.path.join(SEEDED, 'RESULTS%s.json' % (('.' + slot) if slot else ''))
 	results = json.load(open(res_path)) if os.path.exists(res_path) else {}
 	for sid in ids:
 		prop = sid.split('-')[0]
